@@ -416,6 +416,9 @@ func c09Explore(c *fw.Ctx, cs c09Case, bound int) {
 	if st.Deadlines > 0 {
 		c.HarnessError("C09 %s: %d executions hit the watchdog", cs.name(), st.Deadlines)
 	}
+	if st.Nondeterministic {
+		c.HarnessError("C09: replaying the default schedule gave a different execution (uncaptured nondeterminism)")
+	}
 }
 
 func stripTokens(s string) string { return s }
